@@ -17,6 +17,10 @@ RULE = (
     "class x link type x State configurations (quick: a seeded subset of the 12, thorough: all), with a "
     "trailing '/' on the staged path in a fraction of the runs; single files likewise. Malformed stream: "
     "a '.dvcignore' inside the tree, a listed object / the directory object removed before checkout. "
+    "Store histories before the full transfer (destination not empty): the directory object alone "
+    "transferred first (default shallow transfer), or a complete transfer from which 1-4 file objects "
+    "were deleted; then transfer(shallow=False), reload, object-level checkout and index-level apply of "
+    "the stored directory entry. "
     "Oracle-only stream: trees with 2-4 files above the 1 MiB large-file threshold (thread-pool hashing). "
     "A case is non-trivial when the tree has >= 2 files in >= 2 directories or exercises an error."
 )
@@ -253,6 +257,100 @@ def run_obj(env, src, stage_path, remove=None):
     return obs
 
 
+def run_hist(env, src, kind, pick):
+    """a destination store with a pre-history, then the full transfer and the round trip.
+    kind 'shallow': the directory object alone was transferred first (default shallow transfer);
+    kind 'lost': a complete transfer, then the file objects chosen by `pick` are deleted."""
+    from dvc_objects.fs.local import localfs
+
+    from dvc_data.hashfile import load
+    from dvc_data.hashfile.build import build
+    from dvc_data.hashfile.checkout import CheckoutError, checkout
+    from dvc_data.hashfile.meta import Meta
+    from dvc_data.hashfile.transfer import transfer
+    from dvc_data.index import DataIndex, DataIndexEntry, ObjectStorage
+    from dvc_data.index.checkout import apply, compare
+
+    odb_path, odb = env.odb()
+    staging, _meta, obj = build(odb, src, localfs, "md5")
+    obs = {"oid": obj.hash_info.value, "gone": []}
+    if kind == "shallow":
+        first = transfer(staging, odb, {obj.hash_info})
+    else:
+        first = transfer(staging, odb, {obj.hash_info}, shallow=False)
+        file_oids = sorted(o for o in impl.walk_store(odb_path) if not o.endswith(".dir"))
+        obs["gone"] = sorted({file_oids[i % len(file_oids)] for i in pick}) if file_oids else []
+        for oid in obs["gone"]:
+            odb.delete(oid)
+    obs["pre_failed"] = len(first.failed)
+    obs["pre_store"] = impl.walk_store(odb_path)
+    result = transfer(staging, odb, {obj.hash_info}, shallow=False)
+    obs["failed"] = len(result.failed)
+    obs["store"] = impl.walk_store(odb_path)
+    out = env.out()
+    try:
+        checkout(out, localfs, load(odb, obj.hash_info), odb, state=env.state)
+        obs["co_err"] = None
+        obs["out_files"] = impl.walk_files(out)
+        obs["out_dirs"] = impl.walk_dirs(out)
+    except CheckoutError:
+        obs["co_err"] = 5
+    except FileNotFoundError:
+        obs["co_err"] = 2
+    # index level: an index that holds only the directory entry of the stored object
+    idx = DataIndex({("data",): DataIndexEntry(key=("data",), meta=Meta(isdir=True), hash_info=obj.hash_info)})
+    idx.storage_map.add_cache(ObjectStorage((), odb))
+    out2 = env.out()
+    os.makedirs(out2)
+    failures = []
+    apply(compare(None, idx), out2, localfs, state=env.state, onerror=lambda *a: failures.append(a))
+    obs["idx_failed"] = len(failures)
+    obs["idx_files"] = impl.walk_files(os.path.join(out2, "data")) if os.path.isdir(os.path.join(out2, "data")) else {}
+    return obs
+
+
+def hist_case(ctx, case, files, src, walk, items_hist):
+    kind, pick = case["history"]["kind"], case["history"].get("pick", [])
+    cfg = tuple(case["history"]["config"])
+    one = {k: v for k, v in case.items() if k not in ("configs", "remove")}
+    env = Env(ctx, cfg)
+    try:
+        obs = run_hist(env, src, kind, pick)
+    except Exception as exc:  # noqa: BLE001
+        ctx.oracle_fail(f"C02:history-exception:{type(exc).__name__}",
+                        f"round trip after the store history '{kind}' raised {type(exc).__name__}: {exc}", one)
+        return
+    finally:
+        env.close()
+    ctx.count("history:" + kind)
+    if obs["failed"] or obs["pre_failed"]:
+        # an honest failure report is not a violation of the round trip (never seen: local stores)
+        ctx.count("history:transfer-reported-failure")
+        return
+    truth = {impl.md5hex(b) for b in files.values()}
+    absent = sorted(truth - set(obs["store"]))
+    if absent:
+        ctx.oracle_fail("C02:store-incomplete-after-full-transfer",
+                        f"history '{kind}': the full transfer reported success but the store lacks {absent}", one)
+    if obs["co_err"] is not None:
+        ctx.oracle_fail("C02:history-checkout-failed",
+                        f"history '{kind}': checkout of the completed store failed with code {obs['co_err']}", one)
+    elif obs["out_files"] != files or set(obs["out_dirs"]) != ancestors(files):
+        ctx.oracle_fail("C02:history-roundtrip", f"history '{kind}': the checked-out tree differs from the source", one)
+    if obs["idx_failed"] or obs["idx_files"] != files:
+        ctx.oracle_fail("C02:history-idx-roundtrip",
+                        f"history '{kind}': index-level apply of the stored directory differs "
+                        f"({obs['idx_failed']} failures reported)", one)
+    if obs["co_err"] is None:
+        co = vL([vN(1), vL([v_fsmap(obs["out_files"]), v_dirs(obs["out_dirs"])])])
+    else:
+        co = vL([vN(0), vN(obs["co_err"])])
+    exp = vL([vN(1), vB(obs["oid"]), v_store(obs["pre_store"]), v_store(obs["store"]), co])
+    inp = cpair(cpair(cbytes(src), walk_term(walk)),
+                cpair("0" if kind == "shallow" else "1", clist([cbytes(g) for g in obs["gone"]])))
+    items_hist.append((one, inp, exp))
+
+
 def run_idx(env, src):
     """index level: build -> md5 -> save -> compare(None, idx) -> apply"""
     from dvc_objects.fs.local import localfs
@@ -389,7 +487,7 @@ def case_files(case):
     return files
 
 
-def tree_case(ctx, case, items_obj, items_idx, items_bad):
+def tree_case(ctx, case, items_obj, items_idx, items_bad, items_hist=None):
     files = case_files(case)
     with_model = not case.get("big_files")
     dirs = case["dirs"]
@@ -472,13 +570,15 @@ def tree_case(ctx, case, items_obj, items_idx, items_bad):
             ctx.count("malformed:removed-" + ("dir-object" if pick == "dir" else "file-object"))
         finally:
             env.close()
+    if case.get("history") and with_model:
+        hist_case(ctx, case, files, src, walk, items_hist if items_hist is not None else [])
     impl.rm_rf(base)
     ctx.count(f"files:{min(len(files), 60) // 5 * 5}+")
     ctx.count(f"depth:{max([r.count('/') + 1 for r in list(files) + dirs] or [0])}")
     ctx.count(f"empty-dirs:{'yes' if set(dirs) - ancestors(files) else 'no'}")
     ctx.count(f"duplicate-contents:{'yes' if len(set(files.values())) < len(files) else 'no'}")
     nontrivial = (len(files) >= 2 and len({r.rsplit('/', 1)[0] if '/' in r else '' for r in files}) >= 2) \
-        or bool(case.get("remove"))
+        or bool(case.get("remove")) or bool(case.get("history"))
     ctx.case(case, nontrivial)
 
 
@@ -547,12 +647,13 @@ CORPUS = [
     # keys that differ only by where the separator falls; duplicate contents; an empty nested directory
     {"files": {"a/b c": "78", "a b/c": "78", "d/e/f": "", "q\"\\": "0d0a00"}, "dirs": ["a", "a b", "d", "d/e", "g", "g/h"],
      "configs": [["local", "copy", False], ["base", "symlink", True], ["local", "hardlink", True]],
-     "trailing_slash": True, "remove": 0},
+     "trailing_slash": True, "remove": 0, "history": {"kind": "shallow", "config": ["local", "copy", False]}},
     # no files at all: only empty directories
     {"files": {}, "dirs": ["e", "e/f"], "configs": [["local", "copy", False], ["base", "hardlink", False]]},
     # names that look like listing syntax / object names, non-BMP and combining characters
     {"files": {"relpath": "5b5d", "md5/\U0001f600": "00", "é/é": "610d0a", "x.dir/0123456789abcdef0123456789abcdef.dir": "5b5d"},
-     "dirs": ["md5", "é", "x.dir"], "configs": [["base", "copy", True], ["local", "symlink", False]], "remove": "dir"},
+     "dirs": ["md5", "é", "x.dir"], "configs": [["base", "copy", True], ["local", "symlink", False]], "remove": "dir",
+     "history": {"kind": "lost", "config": ["base", "hardlink", True], "pick": [0, 2]}},
 ]
 
 
@@ -573,6 +674,10 @@ def run(ctx):
             case["remove"] = ctx.rng.randint(0, 30)
         elif r < 0.28:
             case["remove"] = "dir"
+        if files and ctx.rng.random() < (0.6 if quick else 1.0):
+            kind = ctx.rng.choice(["shallow", "lost"])
+            case["history"] = {"kind": kind, "config": list(ctx.rng.choice(CONFIGS)),
+                               "pick": [ctx.rng.randint(0, 60) for _ in range(ctx.rng.randint(1, 4))] if kind == "lost" else []}
         cases.append(case)
     for i in range(ctx.n(1, 4)):
         # >= 2 files above the 1 MiB threshold in one directory: the unordered thread-pool path of
@@ -585,9 +690,9 @@ def run(ctx):
             continue
         cases.append({"files": {r: b.hex() for r, b in files.items()}, "dirs": dirs, "big_files": big,
                       "configs": pick_configs(ctx, 2 if quick else 4)})
-    items_obj, items_idx, items_bad, items_file = [], [], [], []
+    items_obj, items_idx, items_bad, items_file, items_hist = [], [], [], [], []
     for case in cases:
-        tree_case(ctx, case, items_obj, items_idx, items_bad)
+        tree_case(ctx, case, items_obj, items_idx, items_bad, items_hist)
     # '.dvcignore' inside the collected directory
     for i in range(ctx.n(3, 12)):
         files, dirs = gen_tree(ctx.rng, 3, 6, 1)
@@ -606,6 +711,9 @@ def run(ctx):
     ctx.correspond("idx", IMPORTS, "list N * walk", "fun i => idx_roundtrip_val (fst i) (snd i)", items_idx, shard=12)
     ctx.correspond("incomplete", IMPORTS, "(list N * walk) * list (list N)",
                    "fun i => checkout_without (fst (fst i)) (snd (fst i)) (snd i)", items_bad, shard=12)
+    ctx.correspond("history", IMPORTS, "(list N * walk) * (N * list (list N))",
+                   "fun i => obj_roundtrip_hist (fst (fst i)) (snd (fst i)) (fst (snd i)) (snd (snd i))",
+                   items_hist, shard=10)
     ctx.correspond("file", IMPORTS, "list N", "file_roundtrip", items_file, shard=40)
 
 
